@@ -64,6 +64,8 @@ def run(pid, tier, seed, replay=None):
   if prop.uses_t1:
     t1 = translate.regenerate_all(C.REPO)
     info.update({'t1_units': t1['t1_units'], 't1_fallback_units': t1['t1_fallback_units']})
+    if t1.get('t1_vec_t2_only'):
+      info['t1_vec_t2_only'] = t1['t1_vec_t2_only']      # vector units read but outside the T1v subset: tied by T2 only
     for u in t1['t1_fallback_units']:
       red.append(('t1-untranslatable', u, 'source unit is outside the translatable subset'))
 
@@ -78,9 +80,10 @@ def run(pid, tier, seed, replay=None):
       return 2
   # proof obligations: {module: [theorem names]}; `theorems` may be a plain list (all in lean_module)
   groups = dict(prop.theorems) if isinstance(prop.theorems, dict) else {prop.lean_module: list(prop.theorems)}
-  if prop.bridge:
-    groups.setdefault('DK.Lemmas.Bridge', [])
-    groups['DK.Lemmas.Bridge'] = list(groups['DK.Lemmas.Bridge']) + list(prop.bridge)
+  for b in prop.bridge:
+    # bridge lemmas are audited from the module that proves them: scalar kernels (Bridge) / vector bodies (BridgeVec)
+    bmod = 'DK.Lemmas.BridgeVec' if b.startswith('DK.BridgeVec.') else 'DK.Lemmas.Bridge'
+    groups[bmod] = list(groups.get(bmod, [])) + [b]
   modules = sorted(set(list(groups) + ([prop.lean_module] if prop.lean_module else [])))
   obligations = [t for m in groups for t in groups[m]]
   discharged = 0
